@@ -295,7 +295,7 @@ def build_harness(race=False, timeout=900):
         cmd = ["go", "build"] + (["-race"] if race else [])
         if os.environ.get("VERIF_COVER"):
             # coverage survey of /repo by the checks (lib/coverage_survey.sh): never set by a registered command
-            cmd += ["-cover", "-coverpkg=verif/harness/cmd/storageharness,github.com/openziti/storage/..."]
+            cmd += ["-cover", "-covermode=atomic", "-coverpkg=verif/harness/cmd/storageharness,github.com/openziti/storage/..."]
         cmd += ["-o", binp, "./cmd/storageharness"]
         rc, out = run(cmd, cwd=HARNESS, env=GOENV, timeout=timeout)
         if rc != 0:
